@@ -283,6 +283,51 @@ func checkC12(w *World) {
 		}
 		w.check(P, "R12.2", "lang: comparison", impl.Pos(), dash && fold && lenIdx, fmt.Sprintf("tests for '-' : %v, at position len(argument): %v; case-insensitive comparison: %v", dash, lenIdx, fold))
 	}
+	// the attribute lookup itself
+	docRule(P, "R12.4", "D", "store.GetAttribute reports an attribute as found only under the conjunction Space() == space and Local() == local on the same attribute, and keeps searching otherwise (a returned 'found' inside the search loop is the constant true under both tests; 'not found' is returned only after the loop).")
+	if ga := w.member("store", "GetAttribute"); ga != nil {
+		loops := loopBlocks(ga)
+		allInstrs(ga, func(in ssa.Instruction) {
+			ret, ok := in.(*ssa.Return)
+			if !ok || len(ret.Results) != 2 {
+				return
+			}
+			c, isConst := ret.Results[1].(*ssa.Const)
+			foundTrue := isConst && c.Value != nil && c.Value.String() == "true"
+			sp, lo := false, false
+			for _, a := range guardAtoms(ret.Block()) {
+				bo, ok := a.V.(*ssa.BinOp)
+				if !ok || !((bo.Op == token.EQL && a.Pol) || (bo.Op == token.NEQ && !a.Pol)) {
+					continue
+				}
+				for _, o := range []ssa.Value{bo.X, bo.Y} {
+					if _, ok := isMethodCall(o, "Space"); ok {
+						sp = true
+					}
+					if _, ok := isMethodCall(o, "Local"); ok {
+						lo = true
+					}
+				}
+			}
+			inLoop := loops[ret.Block()]
+			for _, a := range guardAtoms(ret.Block()) {
+				// reached through a branch taken inside the loop body
+				if in2, ok := a.V.(ssa.Instruction); ok && loops[in2.Block()] {
+					if bo, ok := a.V.(*ssa.BinOp); !ok || !isLenOf(bo.Y, nil) {
+						inLoop = true
+					}
+				}
+			}
+			if inLoop || !isNilConst(ret.Results[0]) {
+				w.check(P, "R12.4", "GetAttribute: a return from inside the search", ret.Pos(), foundTrue && sp && lo, fmt.Sprintf("found is the constant true: %v; under Space() == space: %v and Local() == local: %v", foundTrue, sp, lo))
+			} else {
+				w.check(P, "R12.4", "GetAttribute: not found after the search", ret.Pos(), isConst && !foundTrue, "returns (nil, false) after the loop")
+			}
+		})
+	} else {
+		w.undecided(P, "R12.4", "store.GetAttribute", 0, "not found")
+	}
+	w.floor(P, "R12.4", 2)
 	w.floor(P, "R12.2", 6)
 
 	// R12.3 shared
